@@ -99,3 +99,61 @@ def flow_bijections(ctx):
         yield name, dim, cond, flow.bijection, tol
     for name, dim, cond, bij in combinators(ctx):
         yield name, dim, cond, bij, 1e-6
+
+
+# ---------------------------------------------------------------- integer-dtype inputs (hard-mode seeded changes C03c, C09c)
+def int_dtype_unit(ctx, prop_tag, bijections=True, distributions=False):
+    """An integer-valued point given with an INTEGER dtype (python int, int32/int64 arrays) is the same point of the domain as
+    its float version: every bijection method / log_prob must return exactly what it returns for x.astype(float).  (On the
+    tree before fix ba4276c in-place updates truncated: Partial, MaskedAutoregressive.inverse.)"""
+    L = lv.lib()
+    jnp, jr, B = L["jnp"], L["jr"], L["B"]
+    rng = ctx.rng
+    u = ctx.unit("integer-dtype-inputs", "bijection methods / log_prob called with an integer-dtype x vs the same values as floats: identical results "
+                                         "(combinators incl. Partial, Scan, Vmap; conditional MAF / coupling layers; flow factories); non-trivial = all")
+
+    def same(a, b):
+        a = a if isinstance(a, tuple) else (a,)
+        b = b if isinstance(b, tuple) else (b,)
+        return all(np.allclose(np.asarray(p, dtype=float), np.asarray(q, dtype=float), rtol=1e-12, atol=1e-12, equal_nan=True) for p, q in zip(a, b))
+
+    items = []
+    if bijections:
+        items += [(n_, c_, b_, None) for n_, _, c_, b_ in combinators(ctx)]
+    if distributions or bijections:
+        for name, dim, cond, flow, _ in flows(ctx, dims=(2,), conds=(None, 2)):
+            if name != "bnaf":
+                items.append((name, cond, flow.bijection, flow))
+    from flowjax.distributions import Normal, Transformed
+    if distributions:
+        items.append(("Transformed(Normal, Partial)", None, None, Transformed(Normal(jnp.zeros(4)), B.Partial(B.Affine(jnp.ones(2), 2.5), slice(1, 3), (4,)))))
+        items.append(("Transformed(Normal, MAF layer)", 2, None, Transformed(Normal(jnp.zeros(3)), perturb(B.MaskedAutoregressive(
+            jr.PRNGKey(4), transformer=B.Affine(), dim=3, cond_dim=2, nn_width=5, nn_depth=1), rng, 0.5))))
+    for name, cond, bij, dist in items:
+        shape = (bij if bij is not None else dist).shape
+        xi = rng.integers(-2, 3, shape)
+        c = None if cond is None else jnp.asarray(rng.uniform(-0.9, 0.9, cond))  # |c| < 1: truncation of the condition would be visible
+        calls = []
+        if bijections and bij is not None:
+            calls += [(f"{m}", getattr(bij, m)) for m in ("transform", "inverse", "transform_and_log_det", "inverse_and_log_det")]
+        if distributions and dist is not None:
+            calls += [("log_prob", dist.log_prob)]
+        for mname, f in calls:
+            for dt in (np.int32, np.int64):
+                u.count((name, mname, str(dt), xi.tolist()), tag=mname)
+                try:
+                    ref = f(jnp.asarray(xi, dtype=float), c) if c is not None else f(jnp.asarray(xi, dtype=float))
+                except NotImplementedError:
+                    continue
+                try:
+                    got = f(jnp.asarray(xi.astype(dt)), c) if c is not None else f(jnp.asarray(xi.astype(dt)))
+                    err = None if same(got, ref) else f"returns {np.ravel(np.asarray(got[0] if isinstance(got, tuple) else got))[:4].tolist()} ... for the integer-dtype x " \
+                                                       f"but {np.ravel(np.asarray(ref[0] if isinstance(ref, tuple) else ref))[:4].tolist()} ... for the same values as floats"
+                except Exception as e:  # noqa: BLE001
+                    err = f"raises {type(e).__name__} for an integer-dtype x ({str(e)[:80]})"
+                if err:
+                    ctx.violation(sig=f"int-dtype:{name}:{mname}", what=f"{name}.{mname}: {err}; x = {xi.tolist()} ({np.dtype(dt).name})",
+                                  case=dict(unit="integer-dtype-inputs", item=name, method=mname, x=xi.tolist(), dtype=np.dtype(dt).name,
+                                            condition=None if c is None else np.asarray(c).tolist()),
+                                  found_input=True, unit=u.name, broken=f"{prop_tag}: integer-dtype inputs")
+                    break
